@@ -605,28 +605,33 @@ class MemMachine(Machine):
 
 
 @memoised('RV-MEM-HSEM')
-def rule_mem_hsem(ctx, R):
+def rule_mem_hsem(ctx, R, arch='rv64'):
     if STRICT_FAMILY:
         R.note('rule_mem_hsem skipped: RXVERIF_STRICT_FAMILY=1 (emitted-code / executor evaluation on terms switched off, see DESIGN.md 9.2)')
         return
     from rules import x86hsem as X
-    F, hs = jit.handlers(ctx, 'rv64')
+    F, hs = jit.handlers(ctx, arch)
     R.rule('RV-MEM-HSEM', 'for the six memory-form integer instructions and ISTORE the words the RV64 handler and its address helpers emit, given their architectural meaning on terms with x5 as the scratchpad base and the mask registers holding the '
            'L1 / L2 / L3 masks, read (write) the 8 bytes at scratchpad + ((src + sext(imm32)) & mask) with the mask chosen by mod.mem (ISTORE: L3 when mod.cond >= StoreL3Condition; src == dst: the constant address imm32 & L3 mask) and combine them '
            'with dst as specification 5.2 prescribes; every dst x src, mod.mem in {0, 1, 3}, boundary immediates', min_instances=2500)
-    R.saw(config='K3', unit='src/jit_compiler_rv64.cpp')
+    R.saw(config='K3', unit=jit.ARCH[arch]['unit'])
     FI = astq.Facts(ctx, 'K0')
     K = {'L1': FI.const('randomx::ScratchpadL1Mask'), 'L2': FI.const('randomx::ScratchpadL2Mask'), 'L3': FI.const('randomx::ScratchpadL3Mask'), 'StoreL3Condition': FI.const('randomx::StoreL3Condition')}
-    regs = {'spad': F.const('randomx::SpadReg'), 'L1': F.const('randomx::MaskL1Reg'), 'L2': F.const('randomx::MaskL2Reg'), 'L3': F.const('randomx::MaskL3Reg')}
+    if arch == 'rvv':
+        # register assignment of the vector back-end's template (documented at its top: x12 scratchpad, x16 / x17 L1 / L2 masks, x1 L3 mask; r0-r7 in x20-x27)
+        regs = {'spad': 12, 'L1': 16, 'L2': 17, 'L3': 1}
+        regmap = list(range(20, 28))
+    else:
+        regs = {'spad': F.const('randomx::SpadReg'), 'L1': F.const('randomx::MaskL1Reg'), 'L2': F.const('randomx::MaskL2Reg'), 'L3': F.const('randomx::MaskL3Reg')}
+        regR = [f for f in F.in_file('jit_compiler_rv64.cpp') if f['name'] == 'regR']
+        regmap = []
+        for i in range(8):
+            ev = KBEval(F, {regR[0]['params'][0]['id']: KB.const(32, i)})
+            rets = []
+            ev._exec(regR[0]['body'], rets)
+            regmap.append(rets[0].value())
     if None in K.values() or None in regs.values():
         raise AnalysisBroken('RV-MEM-HSEM: mask constants / registers not found (%s %s)' % (K, regs))
-    regR = [f for f in F.in_file('jit_compiler_rv64.cpp') if f['name'] == 'regR']
-    regmap = []
-    for i in range(8):
-        ev = KBEval(F, {regR[0]['params'][0]['id']: KB.const(32, i)})
-        rets = []
-        ev._exec(regR[0]['body'], rets)
-        regmap.append(rets[0].value())
     n = 0
     for name in X.MEM_HANDLERS:
         if name not in hs:
@@ -646,7 +651,7 @@ def rule_mem_hsem(ctx, R):
                             ov = {'randomx::Instruction::getImm32': KB.const(32, imm), 'randomx::Instruction::getModShift': KB.const(32, (mod >> 2) & 3),
                                   'randomx::Instruction::getModMem': KB.const(32, modmem), 'randomx::Instruction::getModCond': KB.const(32, modcond)}
                             ex = RvExec(F, fields, ov)
-                            ex.run(h, [None, None, KB.const(32, 7), KB.const(32, 0)])
+                            ex.run(h, [None, None, KB.const(32, 7), KB.const(32, 0)] if arch == 'rv64' else [])
                             m = MemMachine(regmap, K, regs)
                             tr, bad = [], None
                             for size, w, wh in ex.words:
@@ -680,7 +685,7 @@ def rule_mem_hsem(ctx, R):
                                             raise AnalysisBroken('RV-MEM-HSEM: %s dst=r%d src=r%d: %s is %s, the specification says %s; equivalence undecided' % (name, d, s, what, T.term_show(g_, None), T.term_show(e_, None)))
                                         bad = '%s = %s after `%s` (specification: %s); e.g. the code gives %#x, the specification %#x' % (what, T.term_show(g_, None), ' ; '.join(tr), T.term_show(e_, None), differs[1], differs[2])
                                         break
-                            inst = '%s dst=r%d src=r%d mod.mem=%d%s imm32=%#x' % (name, d, s, modmem, ' mod.cond=%d' % modcond if name == 'ISTORE' else '', imm)
+                            inst = ('rvv ' if arch == 'rvv' else '') + '%s dst=r%d src=r%d mod.mem=%d%s imm32=%#x' % (name, d, s, modmem, ' mod.cond=%d' % modcond if name == 'ISTORE' else '', imm)
                             if bad:
                                 R.violation(inst, where, expected='as in specification 5.2 (address = (src + sext(imm32)) & mask)', found=bad)
                             else:
